@@ -1,7 +1,7 @@
 // C05 — One mapper at a time; Reset releases it; foreign services cannot seize it.
 #include "hist.hpp"
 
-struct Stats { int accepted = 0, rejected = 0, resets = 0, foreign_op0 = 0, undetermined = 0, checked = 0; };
+struct Stats { int accepted = 0, rejected = 0, resets = 0, foreign_op0 = 0, undetermined = 0, checked = 0, floods = 0; };
 
 static Verdict run_hist(const Case &c, Stats *st_out = nullptr) {
     Verdict v;
@@ -18,6 +18,13 @@ static Verdict run_hist(const Case &c, Stats *st_out = nullptr) {
         const Op &op = ops[i];
         if (op.kind == K_ADVANCE) { vp_set_now_ms(vp_now_ms() + (uint64_t)op.arg(0)); continue; }
         if (op.kind == K_OTHERIF) { oif.step(w, h, op); continue; }   // Resets, Discovers ... on another interface of the host leave this one's mapper alone
+        if (op.kind == K_PBURST) {   // a flood of pairwise distinct probes (no Query): whatever limit the responder hits, the mapper stays the mapper
+            Mac own = h.ownmac();
+            for (int64_t k = 0; k < std::min<int64_t>(op.arg(1), 1200); k++)
+                (void)w.deliver(ifi, mk_simple(own, mac_from_u64(0x0600CC000000ULL + (uint64_t)(op.arg(0) + k)), 0, (k & 1) ? OP_PROBE : OP_TRAIN, own, mac_from_u64(0x0600DD000000ULL + (uint64_t)((op.arg(0) + k) % 5)), 0));
+            st.floods++;
+            continue;
+        }
         Built b = build_frame(h, op, sh);
         if (!b.is_frame) continue;
         Sem sem = frame_sem(b.frame);
@@ -44,6 +51,7 @@ static Verdict run_hist(const Case &c, Stats *st_out = nullptr) {
     if (st.foreign_op0) v.cls("foreign-service-opcode-0");
     if (st.resets) v.cls("has-reset");
     if (st.rejected) v.cls("has-rejected-discover");
+    if (st.floods) v.cls("has-probe-flood");
     if (st_out) *st_out = st;
     return v;
 }
@@ -102,7 +110,13 @@ int main(int argc, char **argv) {
     if (ok) {
         HistWeights w;
         w.discover = 10; w.reset = 3; w.shell = 6; w.hello = 1; w.probe = 3; w.emit = 2; w.query = 2; w.qlt = 2; w.otherif = 2; w.repeat = 1;
-        ok = run_cases(a, ev, "c05-histories", a.n(80000, 800000), 100, hg::hist_case(w, 5, 60), run);
+        auto base = hg::hist_case(w, 5, 60);
+        auto gen = rc::gen::exec([=] {
+            Case c = *base;
+            if (*gx::chance(2)) { Op f; f.kind = K_PBURST; f.a = {*gx::range<int64_t>(0, 100000), *gx::pick({1023, 1024, 1025, 1100})}; c.ops.insert(c.ops.begin() + *gx::range<int>(0, (int)c.ops.size()), f); }
+            return c;
+        });
+        ok = run_cases(a, ev, "c05-histories", a.n(80000, 800000), 100, gen, run);
     }
     ev.write(a.out);
     return ok ? 0 : 1;
